@@ -40,6 +40,7 @@ type Instance struct {
 	CallPos token.Pos
 	Results []*Var
 	Lit     *ast.FuncLit // the literal an inlined literal call runs
+	Args    []*Term      // argument terms of the inlined call (as written at the call, unresolved)
 	exit    *Node
 	nlits   int
 }
